@@ -79,7 +79,7 @@ func HDelete() {
 	dry := nd_bool()
 	ioerr := int32(nd_range(0, 1))
 	conn := newVconn(nil)
-	rt := newRecvTransfer(fsys, conn, 0, &TransferOpts{DeleteMode: true, DryRun: dry})
+	rt := newRecvTransfer(fsys, conn, 0, &TransferOpts{DeleteMode: true, DryRun: dry, PreserveTimes: nd_bool(), PreservePerms: nd_bool()})
 	rt.IOErrors = ioerr
 	err := rt.deleteFiles(fl)
 	vassert(err == nil, "delete pass failed")
